@@ -169,6 +169,19 @@ def stepAll (st : St) (line : String) : St × Verdict :=
         -- a generated chain is held by certchain from the start
         ({ st' with ccCerts := if st.kind == "gen" then st'.store.certs.length else st.ccCerts }, .ok "put")
     | _, _, _, _ => (st, .bad "parse put")
+  | "save" :: i :: "=>" :: res :: rest =>
+    -- C03: the host's real saveDecision on a decision signed by every member with power
+    let kv := parseKV rest
+    let inst := (getn (parseKV [i]) "inst").getD 0
+    if res != "ok" then
+      (st, .oracle s!"C03-HOST-SAVE-FAILED inst {inst}: saveDecision answered {res} for a well-formed decision of the instance's committee")
+    else if getn kv "certeq" != some 1 then
+      (st, .oracle s!"C03-HOST-CERTIFICATE-DIFFERS inst {inst}: the certificate the host formed is not the decision with the canonical delta between the committees of instances {inst} and {inst + 1}")
+    else if getn kv "stored" != some 1 then
+      (st, .oracle s!"C03-HOST-CERTIFICATE-NOT-STORED inst {inst}: the certificate returned by saveDecision is not what the store holds")
+    else if (rest.find? (·.startsWith "valid=")) != some "valid=ok" then
+      (st, .oracle s!"C03-HOST-CERTIFICATE-REJECTED inst {inst}: a node holding the same power table rejects it ({rest.getLast?.getD ""})")
+    else (st, .ok "save_ok")
   | "ccv" :: _ :: "=>" :: [res] =>
     if res == "ok" then ({ st with ccCerts := st.ccCerts + 1 }, .ok "ccv_ok")
     else (st, .oracle s!"CERTCHAIN-REJECTS-NODE-CHAIN certchain.Validate answered {res} for a certificate the node's own rules produced and its store accepted (inst {st.store.first + st.store.certs.length - 1}, look-back {st.m.committeeLookback}, initial inst {st.m.initialInstance})")
@@ -208,7 +221,10 @@ def step (st : St) (line : String) : St × Verdict :=
   match v with
   | .oracle msg =>
     let isCertchain := msg.startsWith "CERTCHAIN"
-    if st.mode == "c15" && isCertchain then (st', .ok "oracle_failure_belonging_to_C19")
+    let isHost := msg.startsWith "C03-"
+    if st.mode == "c03" then (if isHost then (st', v) else (st', .ok "oracle_failure_belonging_to_C15_or_C19"))
+    else if isHost then (st', .ok "oracle_failure_belonging_to_C03")
+    else if st.mode == "c15" && isCertchain then (st', .ok "oracle_failure_belonging_to_C19")
     else if st.mode == "c19" && !isCertchain then (st', .ok "oracle_failure_belonging_to_C15")
     else (st', v)
   | _ => (st', v)
